@@ -57,6 +57,9 @@ pub struct Case {
     /// language and encoding (Latin-1 comments, an incomplete multi-byte sequence at its end)
     #[serde(default)]
     pub source_kind: u8,
+    /// the generated configuration is called Monorail.dev.json (lockfile Monorail.dev.lock)
+    #[serde(default)]
+    pub dotted_name: bool,
 }
 
 /// What the source file holds. `config generate` only reads the configuration from stdin; the
@@ -116,7 +119,8 @@ pub fn strategy() -> impl Strategy<Value = Case> {
         }
         c
     });
-    (prop_oneof![1 => small, 2 => big], vec(tamper(), 4..10), 0u8..=1).prop_map(|(config, tampers, source_kind)| Case { config, tampers, source_kind })
+    (prop_oneof![1 => small, 2 => big], vec(tamper(), 4..10), 0u8..=1, proptest::bool::weighted(0.3))
+        .prop_map(|(config, tampers, source_kind, dotted_name)| Case { config, tampers, source_kind, dotted_name })
 }
 
 fn apply(orig: &[u8], t: &Tamper) -> Option<Vec<u8>> {
@@ -212,6 +216,12 @@ fn invoke(env: &mut Env, i: usize) -> bb::MrOut {
 
 pub fn check(case: &Case, w: usize) -> CheckResult {
     let mut env = Env::new(w);
+    let lock_name = if case.dotted_name {
+        env.config_name = "Monorail.dev.json".to_string();
+        "Monorail.dev.lock"
+    } else {
+        "Monorail.lock"
+    };
     let mut cfg = case.config.clone();
     cfg.source_path = Some("Monorail.src.json".into());
     env.install_config(&cfg);
@@ -225,7 +235,7 @@ pub fn check(case: &Case, w: usize) -> CheckResult {
             older.targets.push(crate::model::TargetSpec::new(&format!("removed/since/then-{:02}", i)));
         }
         std::fs::write(env.config_path(), serde_json::to_string_pretty(&env.with_ports(&older).to_value()).unwrap()).ok();
-        env.write_file("Monorail.lock", b"{\"checksum\":\"0000000000000000000000000000000000000000000000000000000000000000\",\"padding\":\"an older and longer lockfile\"}\n");
+        env.write_file(lock_name, b"{\"checksum\":\"0000000000000000000000000000000000000000000000000000000000000000\",\"padding\":\"an older and longer lockfile\"}\n");
     }
     let src_file = source_file_bytes(case.source_kind, &src_bytes);
     env.write_file("Monorail.src.json", &src_file);
@@ -249,7 +259,7 @@ pub fn check(case: &Case, w: usize) -> CheckResult {
         return viol_obs("c17.generate.failed", "config generate rejected a valid source configuration".into(), g.brief());
     }
     let gen_path = env.config_path();
-    let lock_path = env.path("Monorail.lock");
+    let lock_path = env.path(lock_name);
     let (Ok(gen_bytes), Ok(lock_bytes)) = (std::fs::read(&gen_path), std::fs::read(&lock_path)) else {
         return viol("c17.generate.files", "config generate did not write the generated file and the lockfile".into());
     };
@@ -459,6 +469,7 @@ pub fn exhaustive_cases() -> Vec<Case> {
             config: config.clone(),
             tampers: c.to_vec(),
             source_kind: 1,
+            dotted_name: false,
         })
         .collect()
 }
